@@ -318,7 +318,7 @@ class Engine:
                 return base.attrs[attr]
             k = self.reg.lookup_method(base.cls, attr)
             if k is not None:
-                if k.is_property:
+                if getattr(k, "is_property", False):
                     return self.apply_contract(k, [base], {}, n, st)
                 return ("bound", base, k)
             raise OutOfSubset(n, f"attribute {attr} of object {base.cls}")
@@ -335,7 +335,7 @@ class Engine:
             if isinstance(ty, TObj):
                 k = self.reg.lookup_method(ty.name, attr)
                 if k is not None:
-                    if k.is_property:
+                    if getattr(k, "is_property", False):
                         return self.apply_contract(k, [base], {}, n, st)
                     return ("bound", base, k)
             if ty is TNone:
@@ -500,6 +500,8 @@ class Engine:
                     return self.apply_contract(eqk, [a, b], {}, n, st).t
                 return a.t == b.t
             return z3.BoolVal(False) if self.c.strict_sorts else self._oos(n, f"== across sorts {a.ty} / {b.ty}")
+        if isinstance(a, tuple) and isinstance(b, V) and isinstance(b.ty, TTup):
+            return self.equal(a, self.untup(b), n, st)
         if isinstance(a, tuple) and isinstance(b, V) and isinstance(b.ty, TSeq):
             return z3.And(SQ.length(b.t) == len(a), *[self.equal(x, V(b.ty.elem, SQ.at(b.t, i)), n, st) for i, x in enumerate(a)])
         if isinstance(b, tuple) and isinstance(a, V):
@@ -1067,6 +1069,8 @@ class Engine:
         if isinstance(f, Contract):
             return self.apply_contract(f, args, kwargs, n, st)
         if isinstance(f, tuple) and f and f[0] == "bound":
+            if not isinstance(f[2], Contract):
+                return f[2](self, [f[1]] + args, kwargs, n, st)
             return self.apply_contract(f[2], [f[1]] + args, kwargs, n, st)
         if isinstance(f, tuple) and f and f[0] == "method":
             return self.call_method(f[1], f[2], args, kwargs, n, st)
